@@ -530,6 +530,58 @@ def r4_reauth(ctx):
             )
 
 
+def r4c_throttling_is_not_an_auth_fault(ctx):
+    """The retry callbacks that turn a failed attempt into AuthRequired decide by the STATUS of the answer: a 429
+    (throttling) is waited out inside the bounded retry; raising AuthRequired for it starts a fresh retry budget through
+    requires_auth each time, so persistent throttling is retried without bound (and hammers the authorisation endpoint)."""
+    corpus = ctx.corpus
+    m = corpus.module('b2')
+    n = 0
+    for f in m.all_functions:
+        raises = [r for r in walk_local(f.node) if isinstance(r, ast.Raise) and r.exc is not None and (dotted(r.exc.func if isinstance(r.exc, ast.Call) else r.exc) or '').rsplit('.', 1)[-1] == 'AuthRequired']
+        if not raises or 'details' not in [a.arg for a in f.node.args.args]:
+            continue
+        ctx.analysed(f)
+        for r in raises:
+            n += 1
+            ok = False
+            child = r
+            for a in ancestors(r):
+                if a is f.node:
+                    break
+                if isinstance(a, ast.If):
+                    t = a.test
+                    neg = False
+                    while isinstance(t, ast.UnaryOp) and isinstance(t.op, ast.Not):
+                        t, neg = t.operand, not neg
+                    if isinstance(t, ast.Compare) and len(t.ops) == 1 and any(isinstance(x, ast.Attribute) and x.attr == 'status_code' for x in ast.walk(t)):
+                        is429 = any((isinstance(x, ast.Attribute) and x.attr == 'TOO_MANY_REQUESTS') or (isinstance(x, ast.Constant) and x.value == 429) for x in ast.walk(t))
+                        in_else = any(child is s or is_within(child, s) for s in a.orelse)
+                        is_eq = isinstance(t.ops[0], ast.Eq) != neg if isinstance(t.ops[0], (ast.Eq, ast.NotEq)) else None
+                        if is429 and is_eq is not None and is_eq == in_else:
+                            ok = True
+                child = a
+            if not ok:
+                # guard-clause form: a dominating `if status == 429: return`
+                cfg = cfg_of(f.node)
+                for i in [x for x in walk_local(f.node) if isinstance(x, ast.If)]:
+                    t = i.test
+                    if isinstance(t, ast.Compare) and len(t.ops) == 1 and isinstance(t.ops[0], ast.Eq) and any(isinstance(x, ast.Attribute) and x.attr == 'status_code' for x in ast.walk(t)) and any((isinstance(x, ast.Attribute) and x.attr == 'TOO_MANY_REQUESTS') or (isinstance(x, ast.Constant) and x.value == 429) for x in ast.walk(t)):
+                        tn = cfg.nodes_of(i, ('test',))
+                        rn = cfg.nodes_of(r, ('stmt',))
+                        if tn and rn and i.body and isinstance(i.body[-1], (ast.Return, ast.Continue)) and cfg.path(cfg.entry, rn, avoid=tn) is None:
+                            ok = True
+            ctx.check(
+                ok,
+                'C12.R4',
+                f'{func_label(f)}|throttling-is-not-an-auth-fault',
+                loc(f, r),
+                f'b2.{f.name}: AuthRequired is raised only for answers whose status is not 429',
+                f'b2.{f.name}: AuthRequired can be raised for a 429 answer (the decision does not test the status code against TOO_MANY_REQUESTS): each throttled attempt re-authenticates and restarts the retry budget, so persistent throttling is retried without bound',
+            )
+    ctx.floor('C12.R4', 'retry callbacks raising AuthRequired', n)
+
+
 def r4b_reauth_stateless(ctx, rule='C12.R4'):
     """requires_auth decides per call: its wrappers keep nothing on the backend object except the auth lock itself, and
     never give up on their own (a counter that survives calls turns the N-th isolated token expiry into an error)."""
@@ -591,8 +643,12 @@ def run(ctx):
     r5_no_stale_credentials(ctx)
     r1_bounded_retry(ctx)
     r1b_retry_callbacks_cannot_fail(ctx)
+    from .shared import handlers_use_bound_names
+
+    handlers_use_bound_names(ctx, 'C12.R2', [m for ci in backend_classes(ctx.corpus) for m in own_methods(ctx.corpus, ci).values()], 'retried transfer')
     r2_rewind(ctx)
     r2c_fresh_body_iterator(ctx)
     r3_wrappers(ctx)
     r4_reauth(ctx)
+    r4c_throttling_is_not_an_auth_fault(ctx)
     r4b_reauth_stateless(ctx)
